@@ -797,7 +797,7 @@ CLASSES = [
     ("regularize-assert", "AssertionError", r"", "file:cfg2regex.py|grammar_to_regular.py"),
     ("prev-solution-assert", "AssertionError", r"", "previous_solution_formula"),
     ("insert-assert", "AssertionError", r"", "add_to_result"),
-    ("sempred-assert", "AssertionError", r"", "eliminate_all_ready_semantic_predicate_formulas"),
+    ("sempred-assert", "AssertionError", r"", "last:eliminate_all_ready_semantic_predicate_formulas"),
     ("seq-at-index", "IndexError", r"string index out of range", "evaluate_z3_seq_at"),
     ("ground-unknown-assert", "AssertionError", r"", "file+fn:three_valued_truth.py:to_bool"),
     ("zero-div", "ZeroDivisionError", r"", None),
@@ -811,7 +811,9 @@ def crash_class(cr):
     if cr.get("inner"):
         return None
     for key, typ, rx, fn in CLASSES:
-        if fn is not None and fn.startswith("file+fn:"):
+        if fn is not None and fn.startswith("last:"):     # the innermost frame is this function
+            site = bool(cr["where"]) and cr["where"][-1].endswith(":" + fn[5:])
+        elif fn is not None and fn.startswith("file+fn:"):
             f_, n_ = fn[8:].split(":")
             site = any(w.split(":")[0] == f_ and w.endswith(":" + n_) for w in cr["where"])
         elif fn is not None and fn.startswith("file:"):
